@@ -62,7 +62,7 @@ def run(ctx):
     n_files = ctx.n(24, 300)
     model = core.Model()
     try:
-        for k, fi in enumerate(files.read_files(ctx, rng, n_files, kinds=('default', 'zslice', 'general', 'default', 'b0is4', None),
+        for k, fi in enumerate(files.read_files(ctx, rng, n_files, kinds=('default', 'zslice', 'general', 'irregular', 'default', 'b0is4', None, 'irregular'),
                                                 max_voxels=30_000, versions=(k_versions := True))):
             desc = {'n': fi.n, 'bs': fi.lay.bs, 'q': fi.lay.q, 'arrays': sorted(fi.arrays), 'dups': fi.dups,
                     'il': fi.il[:2], 'xl': fi.xl[:2], 'z': fi.z[:2], 'version': spec.version_decode(fi.version)}
@@ -171,15 +171,26 @@ def run(ctx):
                     probs = spec.conformance_problems(out)
                     try:
                         got = view.sgz_view(out)
-                        probs += view.diff_views(got, view.restrict(src_view, wbox),
+                        probs += view.diff_views(got, view.restrict(src_view, wbox, mask=fi.mask),
                                                  keys=('tracecount', 'structured', 'ilines', 'xlines', 'zslices', 'volume',
                                                        'hash', 'tracefields'))
                         # every trace header of the crop == header of the corresponding source trace
                         (i0, i1), (x0, x1), _ = wbox
                         n1 = fi.n[1]
                         src_h = {t: h for t, h in zip(src_view['header_idx'], src_view['headers'])}
+                        if fi.mask is not None:
+                            # irregular source: trace ordinals count the populated grid positions, in the source and in
+                            # the box alike
+                            mk = np.asarray(fi.mask).reshape(fi.n[0], n1)
+                            src_ord = np.cumsum(mk.reshape(-1)) - 1
+                            live_in_box = [(i, x) for i in range(i0, i1) for x in range(x0, x1) if mk[i, x]]
                         for t, h in zip(got['header_idx'], got['headers']):
-                            st = (i0 + t // (x1 - x0)) * n1 + x0 + t % (x1 - x0)
+                            if fi.mask is not None:
+                                if t >= len(live_in_box):
+                                    continue
+                                st = int(src_ord[live_in_box[t][0] * n1 + live_in_box[t][1]])
+                            else:
+                                st = (i0 + t // (x1 - x0)) * n1 + x0 + t % (x1 - x0)
                             if st in src_h and src_h[st] != h:
                                 dd = {f: (h.get(f), src_h[st].get(f)) for f in h if h.get(f) != src_h[st].get(f)}
                                 probs.append(f'header of cropped trace {t} != source trace {st}: {dict(list(dd.items())[:3])}')
